@@ -2576,6 +2576,13 @@ GRwriteimage(int32 riid, int32 start[2], int32 in_stride[2], int32 count[2], voi
         HGOTO_ERROR(DFE_RINOTFOUND, FAIL);
     gr_ptr = ri_ptr->gr_ptr;
 
+    /* The selection must lie inside the image: the last selected column/row is */
+    /* start + (count-1)*stride (written so that it cannot overflow) */
+    if (start[XDIM] >= ri_ptr->img_dim.xdim || start[YDIM] >= ri_ptr->img_dim.ydim ||
+        (count[XDIM] - 1) > (ri_ptr->img_dim.xdim - 1 - start[XDIM]) / stride[XDIM] ||
+        (count[YDIM] - 1) > (ri_ptr->img_dim.ydim - 1 - start[YDIM]) / stride[YDIM])
+        HGOTO_ERROR(DFE_RANGE, FAIL);
+
     comp_type = COMP_CODE_NONE;
     scheme    = ri_ptr->img_dim.comp_tag;
     if (scheme == DFTAG_JPEG5 || scheme == DFTAG_GREYJPEG5 || scheme == DFTAG_JPEG ||
@@ -2994,6 +3001,13 @@ GRreadimage(int32 riid, int32 start[2], int32 in_stride[2], int32 count[2], void
         HGOTO_ERROR(DFE_RINOTFOUND, FAIL);
     gr_ptr      = ri_ptr->gr_ptr;
     hdf_file_id = gr_ptr->hdf_file_id;
+
+    /* The selection must lie inside the image: the last selected column/row is */
+    /* start + (count-1)*stride (written so that it cannot overflow) */
+    if (start[XDIM] >= ri_ptr->img_dim.xdim || start[YDIM] >= ri_ptr->img_dim.ydim ||
+        (count[XDIM] - 1) > (ri_ptr->img_dim.xdim - 1 - start[XDIM]) / stride[XDIM] ||
+        (count[YDIM] - 1) > (ri_ptr->img_dim.ydim - 1 - start[YDIM]) / stride[YDIM])
+        HGOTO_ERROR(DFE_RANGE, FAIL);
 
     comp_type = COMP_CODE_NONE;
     scheme    = ri_ptr->img_dim.comp_tag;
